@@ -3,6 +3,7 @@ package textwire
 import (
 	"errors"
 	"os"
+	"sort"
 
 	"github.com/textwire/textwire/v2/ast"
 	"github.com/textwire/textwire/v2/fail"
@@ -44,7 +45,17 @@ func parseProgram(absPath string) (*ast.Program, *fail.Error, error) {
 func parsePrograms(paths map[string]string) (map[string]*ast.Program, *fail.Error) {
 	var result = map[string]*ast.Program{}
 
-	for name, absPath := range paths {
+	names := make([]string, 0, len(paths))
+
+	for name := range paths {
+		names = append(names, name)
+	}
+
+	// parse in a fixed order: the first faulty file is the same on every run
+	sort.Strings(names)
+
+	for _, name := range names {
+		absPath := paths[name]
 		prog, failErr, parseErr := parseProgram(absPath)
 		if parseErr != nil {
 			return nil, fail.FromError(parseErr, 0, absPath, "template")
